@@ -168,4 +168,135 @@ theorem kernel_reindex_int (h g : List R) (N K : Nat) (u : Int) (t : Nat) (ht : 
     have : ¬ ((a:Int) = 2*(k:Int) + 1 - u) := by omega
     rw [if_neg this]
 
+/-- the kernel identity over an arbitrary finite set `S ⊆ ℤ` of level indices containing the support of
+the synthesis tap -/
+theorem kernel_reindex_set (h g : List R) (S : Finset Int) (u T : Int) (hg : g.length = h.length)
+    (hS : ∀ k : Int, 0 ≤ T + h.length - 2 - 2*k → T + h.length - 2 - 2*k < h.length → k ∈ S) :
+    ∑ k ∈ S, getZ h (2*k + 1 - u) * getZ g (T + h.length - 2 - 2*k)
+      = ∑ a ∈ range h.length, if (a:Int) % 2 = (u + 1) % 2 then getN h a * getZ g ((T - u) + h.length - 1 - a) else 0 := by
+  have h1 : ∀ k ∈ S, getZ h (2*k + 1 - u) * getZ g (T + h.length - 2 - 2*k)
+      = ∑ a ∈ range h.length, if (a:Int) = 2*k + 1 - u then getN h a * getZ g ((T - u) + h.length - 1 - a) else 0 := by
+    intro k _
+    rw [getZ_eq_sum, Finset.sum_mul]
+    apply Finset.sum_congr rfl; intro a _
+    by_cases hc : (a:Int) = 2*k + 1 - u
+    · rw [if_pos hc, if_pos hc]
+      congr 2; omega
+    · rw [if_neg hc, if_neg hc]; simp
+  rw [Finset.sum_congr rfl h1, Finset.sum_comm]
+  apply Finset.sum_congr rfl; intro a ha
+  have ha' : a < h.length := by simpa using ha
+  by_cases hpar : (a:Int) % 2 = (u + 1) % 2
+  · rw [if_pos hpar]
+    by_cases hk : ((a:Int) + u - 1) / 2 ∈ S
+    · rw [Finset.sum_eq_single_of_mem _ hk]
+      · have : (a:Int) = 2*(((a:Int) + u - 1) / 2) + 1 - u := by omega
+        rw [if_pos this]
+      · intro k _ hne
+        have : ¬ ((a:Int) = 2*k + 1 - u) := by
+          intro hc; apply hne; omega
+        rw [if_neg this]
+    · have hz : getZ g ((T - u) + h.length - 1 - a) = 0 := by
+        by_cases hneg : (T - u) + h.length - 1 - a < 0
+        · exact getZ_neg _ _ hneg
+        · by_cases hge : (g.length:Int) ≤ (T - u) + h.length - 1 - a
+          · exact getZ_of_ge _ _ hge
+          · exfalso; apply hk
+            apply hS <;> omega
+      rw [hz, mul_zero]
+      apply Finset.sum_eq_zero
+      intro k hk'
+      have : ¬ ((a:Int) = 2*k + 1 - u) := by
+        intro hc; apply hk
+        have : ((a:Int) + u - 1) / 2 = k := by omega
+        rw [this]; exact hk'
+      rw [if_neg this]
+  · rw [if_neg hpar]
+    apply Finset.sum_eq_zero
+    intro k _
+    have : ¬ ((a:Int) = 2*k + 1 - u) := by omega
+    rw [if_neg this]
+
+/-- **Perfect reconstruction on the integer line**: for any `e : ℤ → R`, any output position `T ∈ ℤ` and
+any finite set `S` of level indices containing the support of the synthesis taps at `T`. -/
+theorem pr_line (h0 h1 g0 g1 : List R) (e : Int → R) (S : Finset Int) (T : Int) (hL : 2 ≤ h0.length)
+    (hh1 : h1.length = h0.length) (hg0 : g0.length = h0.length) (hg1 : g1.length = h0.length)
+    (hpr : PRBank h0 h1 g0 g1)
+    (hS : ∀ k : Int, 0 ≤ T + h0.length - 2 - 2*k → T + h0.length - 2 - 2*k < h0.length → k ∈ S) :
+    ∑ k ∈ S,
+      ((∑ j ∈ range h0.length, getN h0 j * e (2*k + 1 - (j:Int))) * getZ g0 (T + h0.length - 2 - 2*k)
+       + (∑ j ∈ range h0.length, getN h1 j * e (2*k + 1 - (j:Int))) * getZ g1 (T + h0.length - 2 - 2*k))
+      = e T := by
+  classical
+  set S' := S.filter (fun k => 0 ≤ T + h0.length - 2 - 2*k ∧ T + h0.length - 2 - 2*k < h0.length) with hS'
+  have hsub : ∑ k ∈ S,
+      ((∑ j ∈ range h0.length, getN h0 j * e (2*k + 1 - (j:Int))) * getZ g0 (T + h0.length - 2 - 2*k)
+       + (∑ j ∈ range h0.length, getN h1 j * e (2*k + 1 - (j:Int))) * getZ g1 (T + h0.length - 2 - 2*k))
+      = ∑ k ∈ S',
+      ((∑ j ∈ range h0.length, getN h0 j * e (2*k + 1 - (j:Int))) * getZ g0 (T + h0.length - 2 - 2*k)
+       + (∑ j ∈ range h0.length, getN h1 j * e (2*k + 1 - (j:Int))) * getZ g1 (T + h0.length - 2 - 2*k)) := by
+    symm
+    apply Finset.sum_subset (Finset.filter_subset _ _)
+    intro k hk hnk
+    have hout : ¬ (0 ≤ T + h0.length - 2 - 2*k ∧ T + h0.length - 2 - 2*k < h0.length) := by
+      intro hc; apply hnk; rw [Finset.mem_filter]; exact ⟨hk, hc⟩
+    have z0 : getZ g0 (T + h0.length - 2 - 2*k) = 0 := by
+      by_cases hneg : T + h0.length - 2 - 2*k < 0
+      · exact getZ_neg _ _ hneg
+      · exact getZ_of_ge _ _ (by rw [hg0]; omega)
+    have z1 : getZ g1 (T + h0.length - 2 - 2*k) = 0 := by
+      by_cases hneg : T + h0.length - 2 - 2*k < 0
+      · exact getZ_neg _ _ hneg
+      · exact getZ_of_ge _ _ (by rw [hg1]; omega)
+    rw [z0, z1]; ring
+  rw [hsub]
+  have hS2 : ∀ k : Int, 0 ≤ T + h0.length - 2 - 2*k → T + h0.length - 2 - 2*k < h0.length → k ∈ S' := by
+    intro k a b; rw [Finset.mem_filter]; exact ⟨hS k a b, a, b⟩
+  set W : Finset Int := Finset.Ico (T - (h0.length:Int)) (T + h0.length) with hWdef
+  have hwin : ∀ (h : List R), h.length = h0.length → ∀ k ∈ S',
+      ∑ j ∈ range h0.length, getN h j * e (2*k + 1 - (j:Int))
+        = ∑ u ∈ W, e u * getZ h (2*k + 1 - u) := by
+    intro h hh k hk
+    rw [Finset.mem_filter] at hk
+    rw [← hh]
+    apply sum_taps_window
+    intro j hj
+    rw [hWdef, Finset.mem_Ico]; omega
+  have step1 : ∀ k ∈ S',
+      ((∑ j ∈ range h0.length, getN h0 j * e (2*k + 1 - (j:Int))) * getZ g0 (T + h0.length - 2 - 2*k)
+       + (∑ j ∈ range h0.length, getN h1 j * e (2*k + 1 - (j:Int))) * getZ g1 (T + h0.length - 2 - 2*k))
+      = ∑ u ∈ W, e u *
+          (getZ h0 (2*k + 1 - u) * getZ g0 (T + h0.length - 2 - 2*k)
+           + getZ h1 (2*k + 1 - u) * getZ g1 (T + h0.length - 2 - 2*k)) := by
+    intro k hk
+    rw [hwin h0 rfl k hk, hwin h1 hh1 k hk, Finset.sum_mul, Finset.sum_mul, ← Finset.sum_add_distrib]
+    apply Finset.sum_congr rfl; intro u _; ring
+  rw [Finset.sum_congr rfl step1, Finset.sum_comm]
+  have step2 : ∀ u ∈ W,
+      ∑ k ∈ S', e u *
+          (getZ h0 (2*k + 1 - u) * getZ g0 (T + h0.length - 2 - 2*k)
+           + getZ h1 (2*k + 1 - u) * getZ g1 (T + h0.length - 2 - 2*k))
+      = e u * (if (T - u) = 0 then 1 else 0) := by
+    intro u _
+    rw [← Finset.mul_sum, Finset.sum_add_distrib]
+    have k0 := kernel_reindex_set h0 g0 S' u T hg0 hS2
+    have k1 := kernel_reindex_set h1 g1 S' u T (by omega) (by rw [hh1]; exact hS2)
+    rw [hh1] at k1
+    rw [k0, k1, ← Finset.sum_add_distrib]
+    congr 1
+    have := prbank_all_lags h0 h1 g0 g1 (by omega) hg0 hg1 hpr (((u+1) % 2).toNat) (by omega) (T - u)
+    rw [← this]
+    apply Finset.sum_congr rfl; intro a _
+    have hiff : ((a:Int) % 2 = (u + 1) % 2) ↔ (a % 2 = ((u+1) % 2).toNat) := by omega
+    by_cases hc : (a:Int) % 2 = (u + 1) % 2
+    · rw [if_pos hc, if_pos hc, if_pos (hiff.mp hc)]
+    · rw [if_neg hc, if_neg hc, if_neg (fun h => hc (hiff.mpr h))]; simp
+  rw [Finset.sum_congr rfl step2]
+  have htW : T ∈ W := by rw [hWdef, Finset.mem_Ico]; omega
+  rw [Finset.sum_eq_single_of_mem T htW]
+  · simp
+  · intro u _ hne
+    have : ¬ (T - u = 0) := by omega
+    rw [if_neg this]; ring
+
 end WV
